@@ -73,8 +73,10 @@ def applicable (ev : EventId) (l : List CbSpec) : List CbId :=
 def setState (t : Trigger) (v : Val) : EM Unit :=
   EM.modify fun cfg => { cfg with cur := some v, log := cfg.log ++ [.setState t.tid v] }
 
-/-- `_activate`: `none` = guards rejected; `some r` = executed with result `r` -/
-def activate (h : Nested) (m : Machine) (t : Trigger) (tr : Transn) : EM (Option Res) := do
+/-- first half of `_activate`, up to and including the `on` group: validators (all called), guards
+(conjunction), `before`, `exit(source)`, `on`. `none` = guards rejected; `some rs` = the `before`
+results followed by the `on` results. The model field is not written here. -/
+def activatePre (h : Nested) (m : Machine) (t : Trigger) (tr : Transn) : EM (Option (List Val)) := do
   let x : Ctx := { t := t, src := some tr.source, tgt := tr.target }
   let _ ← runGroup h m x .validators tr.validators
   let ok ← runConds h m x tr.conds
@@ -82,10 +84,23 @@ def activate (h : Nested) (m : Machine) (t : Trigger) (tr : Transn) : EM (Option
   let r1 ← runGroup h m x .before (applicable t.event tr.before)
   let _ ← runGroup h m x .exit (if tr.internal then [] else (stateDef m tr.source).exit)
   let r2 ← runGroup h m x .on (applicable t.event tr.on)
+  return some (r1 ++ r2)
+
+/-- second half of `_activate`: assign the model field, `enter(target)`, `after` -/
+def activatePost (h : Nested) (m : Machine) (t : Trigger) (tr : Transn) : EM Unit := do
+  let x : Ctx := { t := t, src := some tr.source, tgt := tr.target }
   setState t (stateVal m tr.target)
   let _ ← runGroup h m x .enter (if tr.internal then [] else (stateDef m tr.target).enter)
   let _ ← runGroup h m x .after (applicable t.event tr.after)
-  return some (unwrap (r1 ++ r2))
+  pure ()
+
+/-- `_activate`: `none` = guards rejected; `some r` = executed with result `r` -/
+def activate (h : Nested) (m : Machine) (t : Trigger) (tr : Transn) : EM (Option Res) := do
+  match ← activatePre h m t tr with
+  | none => pure none
+  | some rs => do
+    activatePost h m t tr
+    pure (some (unwrap rs))
 
 /-- `Events.match`: exact membership -/
 def matchesEv (tr : Transn) (e : EventId) : Bool := tr.events.contains e
